@@ -186,6 +186,27 @@ type GNode struct {
 	ByKey map[string]*GNode
 }
 
+// PadThen: scalars of every multi-octet kind behind a padding string, so that their
+// payload can be made to straddle any byte offset of the message (buffer boundaries)
+type PadThen struct {
+	Pad  string
+	L    int64
+	D    float64
+	T    time.Time
+	I    int32
+	F    float32
+	Tail string
+}
+
+// MapThenLists: a typed (named) map followed by list types that occur more than once
+type MapThenLists struct {
+	M NamedMap
+	A []int32
+	B []int32
+	C []string
+	D []string
+}
+
 // GF: graph node with two pointer slots and one filler field of every kind in front of them (C04)
 type GF struct {
 	Id  int32
@@ -307,7 +328,7 @@ var Types = []Entry{
 	e(Scalars{}, "scalars"),
 	e(Inner{}), e(Inner2{}), e(WithInner{}, "nested", "ptr"),
 	e(Embedded{}, "embedded"), e(Embedded2{}, "embedded"),
-	e(NamedS{}, "custom"), e(NamedHolder{}, "custom"), e(NamedListHolder{}, "custom", "custom-slice"), e(NamedMapHolder{}, "custom", "custom-map"),
+	e(NamedS{}, "custom"), e(NamedHolder{}, "custom"), e(NamedListHolder{}, "custom", "custom-slice"), e(NamedMapHolder{}, "custom", "custom-map"), e(MapThenLists{}, "custom", "custom-map", "slice"), e(PadThen{}, "scalars"),
 	e(SlBool{}, "slice"), e(SlInt{}, "slice"), e(SlInt8{}, "slice"), e(SlInt16{}, "slice"), e(SlInt32{}, "slice"), e(SlInt64{}, "slice"),
 	e(SlUint{}, "slice"), e(SlUint16{}, "slice"), e(SlUint32{}, "slice"), e(SlUint64{}, "slice"),
 	e(SlF32{}, "slice"), e(SlF64{}, "slice"), e(SlStr{}, "slice"), e(SlBin{}, "slice"), e(SlTime{}, "slice"),
